@@ -92,6 +92,13 @@ theorem T15_order_begin_session (sid : Nat) (b : R) :
     orderRt (microSeq .code (.beginSession sid : Call R W D)) 0 = sessOrderS nomt_begin_session ∧
     orderRt (microSeq .code (.beginSessionOv sid b : Call R W D)) 0 = sessOrderS nomt_begin_session := ⟨rfl, rfl⟩
 
+/-- T15.order-6b the read guard is the FIRST step of `begin_session`, in the LTS (first micro-step `aRead`, nothing queued at
+the call) and in the source (first entry of the generated list, which also lists the two `self.root()` reads). -/
+theorem T15_order_begin_session_guard_first (sid : Nat) (b : R) :
+    (microSeq .code (.beginSession sid : Call R W D)).head? = some (.inl (.aRead sid)) ∧
+    (microSeq .code (.beginSessionOv sid b : Call R W D)).head? = some (.inl (.aRead sid)) ∧
+    (names nomt_begin_session).head? = some .guard_read := ⟨rfl, rfl, by decide⟩
+
 /-- T15.order-7 **drop of a `Session`: the read transactions go BEFORE the read guard** — the LTS's `endSession` (and
 `finishSession`) performs `rtDrop` before `aReadUnlock`, and the step `aReadUnlock` removes whatever the session still
 holds (`rtOnStep`); in the source this is the declaration order of the fields of `struct Session` (Rust drops fields in
